@@ -243,7 +243,7 @@ def r4_subclasses(ctx, sym):
 CONSTRUCTOR_DOMAIN = {
     # attribute: (class default in the model, explicit values a caller may pass - falsy ones included)
     'valence': (-1, [0, 1, -1]),
-    'score': ('+5%', [0, 0.0, '+0', 5, '10%']),
+    'score': ('+5%', [0, 0.0, '+0', 5, '10%', '+12.5%', '-0.15', '0.75']),
     'correct': (True, [False, True]),
     'muted': (True, [False, True]),
     'unscored': (True, [False, True]),
@@ -287,6 +287,14 @@ def constructor_rule(ctx, sym, rule, attrs):
             else:
                 want = value
                 ok = raised is None and got == want and type(got) is type(want)
+                if attr == 'score' and raised is None and not ok and isinstance(got, (str, int, float)) and \
+                        not isinstance(got, bool):
+                    # a score may be stored in another spelling as long as it means the same amount
+                    from .resolver_model import score_value
+                    try:
+                        ok = abs(score_value(got) - score_value(want)) < 1e-12
+                    except (ValueError, IndexError):
+                        ok = False
             ctx.check(ok, rule, 'Feedback.__init__[%s=%r]' % (attr, value), mod, init,
                       "a feedback class whose default %s is %r, constructed with %s: the instance has %s = %r%s; expected "
                       "%r" % (attr, default, '%s=%r' % (attr, value) if value is not None else 'no ' + attr, attr, got,
@@ -440,10 +448,13 @@ def r6_formatter_dispatch(ctx, sym):
                               ('bold', ('fmt:bold', ''), list(avail) + ['bold']),
                               ('>3:bold', ('fmt:bold', '>3'), ['bold'] + list(avail))):
         fd = FD(max_steps=100000, resolver=module_resolver(sym, mod))
-        fmt = Obj('formatter', available=list(names))
         avail_ = names
-        for name in avail_:
-            fmt.attrs['method:' + name] = (lambda n: (lambda v: Obj('rendered', how='fmt:' + n, of=v)))(name)
+
+        def new_formatter(tag):
+            f = Obj('formatter', available=list(names), tag=tag)
+            for name in avail_:
+                f.attrs['method:' + name] = (lambda n: (lambda v: Obj('rendered', how='fmt:' + n, of=v, by=f)))(name)
+            return f
         raw = Obj('rawvalue')
 
         def b_getattr(o, name, *default):
@@ -455,24 +466,40 @@ def r6_formatter_dispatch(ctx, sym):
                 return default[0]
             raise Raised('AttributeError', name)
         fd.calls['getattr'] = b_getattr
-        fd.calls['str'] = lambda v: Obj('rendered', how='str', of=v)
+        fd.calls['str'] = lambda v: Obj('rendered', how='str', of=v, by=None)
+        # (two formatters of one class are told apart as objects, not by their class)
+        fd.calls['type'] = lambda o: ('class-of', o._name) if isinstance(o, Obj) else type(o)
         fd.functions['chomp_spec'] = mod.func('chomp_spec')
-        fd.methods['__format__'] = lambda recv, s: (recv.attrs['how'], recv.attrs['of'], s)
-        # the wrapper is built by its own constructor, so whatever it keeps about the value is there
-        me = Obj('wrapper')
-        me.attrs['__classdef__'] = mod.cls('FeedbackFieldWrapper')
-        try:
-            winit = mod.func('FeedbackFieldWrapper.__init__')
-            fd.call_function(winit, ['k', raw, fmt], bound_self=me)
-            got = fd.call_function(wf, [spec], bound_self=me)
-        except (Raised, Inconclusive) as e:
-            # getattr(...)(...) call form
-            raise AnalysisError("C20 R6: FeedbackFieldWrapper.__format__ outside the decidable fragment: %s" % e)
+        fd.methods['__format__'] = lambda recv, s: (recv.attrs['how'], recv.attrs['of'], s, recv.attrs.get('by'))
+        # the wrapper is built by its own constructor, so whatever it keeps about the value is there; the same spec is
+        # rendered twice in one process, for two reports whose formatters are two instances of one class
+        results = []
+        for tag in ('first report', 'second report'):
+            fmt = new_formatter(tag)
+            me = Obj('wrapper')
+            me.attrs['__classdef__'] = mod.cls('FeedbackFieldWrapper')
+            try:
+                winit = mod.func('FeedbackFieldWrapper.__init__')
+                fd.call_function(winit, ['k', raw, fmt], bound_self=me)
+                got = fd.call_function(wf, [spec], bound_self=me)
+            except (Raised, Inconclusive) as e:
+                # getattr(...)(...) call form
+                raise AnalysisError("C20 R6: FeedbackFieldWrapper.__format__ outside the decidable fragment: %s" % e)
+            results.append((got, fmt))
+        got = results[0][0]
         ok = isinstance(got, tuple) and got[0] == want[0] and got[1] is raw and got[2] == want[1]
         ctx.check(ok, 'R6', '__format__[%r]' % spec, mod, wf,
                   "spec %r renders as %r, expected formatter step %r on the raw value with remaining spec %r" % (
-                      spec, got, want[0], want[1]),
+                      spec, got[:3] if isinstance(got, tuple) else got, want[0], want[1]),
                   "a template field {x:%s}" % spec, construct='FeedbackFieldWrapper.__format__')
+        got2, fmt2 = results[1]
+        ok2 = isinstance(got2, tuple) and got2[:3] == got[:3] and (got2[3] is fmt2 or want[0] == 'str')
+        ctx.check(ok2, 'R6', '__format__[%r]:uses-the-report-formatter' % spec, mod, wf,
+                  "the same spec %r rendered for a second report is rendered by %s" % (
+                      spec, 'the first report\'s formatter object' if isinstance(got2, tuple) and got2[3] is results[0][1]
+                      else repr(got2)),
+                  "TerminalFormatter(path_mask=...) with different masks in two TerminalEnvironments: the second "
+                  "report's file names are rendered with the first mask", construct='FeedbackFieldWrapper.__format__')
 
 
 def r7_overrides(ctx, sym):
